@@ -132,11 +132,43 @@ pub fn run(a: &Args) {
             }
         }
     }
+    let mut trip_bad: Vec<String> = vec![];
+    // names that are not UTF-8 cannot be written as an id or an extension: a notification for such
+    // a path (a file whose extension, stem or directory is not UTF-8) must name NO entry -- in
+    // particular not the entry of a neighbouring file (`foo.<0xff>` is not `foo`)
+    #[cfg(unix)]
+    {
+        use std::os::unix::ffi::OsStrExt;
+        let raw: [&[u8]; 5] = [b"a.\xff", b"\xff.x", b"d/b.\xfe\xff", b"q/\xffdir/a.x", b"two.dots.\xc3"];
+        let mut probe = WatcherProbe::new(vec![r1.clone()]);
+        for name in raw {
+            let p = r1.join(std::ffi::OsStr::from_bytes(name));
+            if let Some(parent) = p.parent() {
+                let _ = std::fs::create_dir_all(parent);
+            }
+            let _ = std::fs::write(&p, b"1");
+            for (_, kind) in kinds.iter() {
+                let got = probe.feed(notify::Event::new(*kind).add_path(p.clone()));
+                n += 1;
+                // the parent directory may be named (a creation or removal changes its listing);
+                // any other entry is a different path
+                let wrong: Vec<&OwnedDirEntry> = got
+                    .iter()
+                    .filter(|e| match e {
+                        OwnedDirEntry::Directory(id) => Some(r1.join(id.replace('.', "/")).as_path()) != p.parent(),
+                        OwnedDirEntry::File(..) => true,
+                    })
+                    .collect();
+                if !wrong.is_empty() && trip_bad.len() < 5 {
+                    trip_bad.push(format!("{kind:?} for {p:?} (a name that is not UTF-8) was turned into {wrong:?}"));
+                }
+            }
+        }
+    }
     // the other direction, and the round trip the property states: for every existing entry of the
     // tree a data-modification event of its path names an entry whose `FileSystem::path_of` is
     // that very path; `path_of` itself is compared with Ref.Watcher.path_of
     let g_po = cases.group("pathof_cases", "path * entry * path");
-    let mut trip_bad: Vec<String> = vec![];
     {
         let fs = assets_manager::source::FileSystem::new(&r1).unwrap();
         let root = fs.root().to_path_buf();
